@@ -22,9 +22,11 @@ void vterm_automate_init(struct vterm_automate *vterm,
 
 static void vterm_newline(struct vterm_automate *vterm)
 {
-    vterm->execute_callback(vterm->execute_privdata,
-                            sline_getline(&vterm->rl.line),
-                            sline_size(&vterm->rl.line));
+    // Обработчик строки, как и обработчик сигнала, может быть не установлен.
+    if (vterm->execute_callback)
+        vterm->execute_callback(vterm->execute_privdata,
+                                sline_getline(&vterm->rl.line),
+                                sline_size(&vterm->rl.line));
     vterm->state = 1;
 }
 
